@@ -492,7 +492,9 @@ def rule_E(ck, units, only=None, floor=3):
                     if a['k'] == 'un' and a['op'] == '&':
                         e = unwrap(a['e'])
                         if e is not None and e['k'] == 'idx' and base_is(e['b']):
-                            return True
+                            ix = unwrap(e['x'])
+                            # &X[0] hands over the whole array; &X[i] is one slot (or a tail) of it - the element written in this iteration
+                            return ix is not None and ix['k'] == 'lit' and ix.get('v') == '0'
                         if e is not None and e['k'] == 'call' and e.get('op') == '()' and e.get('obj') is not None and base_is(e['obj']):
                             return True
                     return False
@@ -734,6 +736,58 @@ def rule_F(ck, units, floor=2, only=None):
                     ck.ob('F.null-deref-guarded', key, f.where(dn), True)
 
 
+def rule_G(ck, units, floor=20, only=None):
+    """G.no-throw-in-parallel-region: an exception that leaves the structured block of an OpenMP construct terminates the program
+    (OpenMP 5.x, 2.x "a throw executed inside a region must cause execution to resume within the same region").  The library reports
+    invalid input by exceptions (amgcl::precondition): no `throw` and no call of precondition / a function that always throws is
+    lexically inside a parallel region (including the bodies of lambdas defined there) unless a try block inside the region encloses
+    it.  Callees with their own bodies are followed one level (helpers such as sort_row that may check their input)."""
+    import omp
+    ck.rule('G.no-throw-in-parallel-region', 'no throw / amgcl::precondition (directly or in a callee followed one level) inside an OpenMP parallel region without an enclosing try in the '
+                                             'region: an exception may not leave a parallel region (std::terminate instead of a catchable error)', floor)
+    seen = set()
+    for u in units.values():
+        for f in u.funcs:
+            if f.body is None or not f.rel().startswith('amgcl/') or (f.file, f.line) in seen:
+                continue
+            if only is not None and not f.rel().startswith(only):
+                continue
+            regs = omp.regions(f)
+            if not regs:
+                continue
+            seen.add((f.file, f.line))
+            k = 0
+            for r in regs:
+                k += 1
+                bad = None
+
+                def throwing(g, n):
+                    return n['k'] == 'throw' or (n['k'] == 'call' and n.get('f') == 'amgcl::precondition')
+                for n in walk(r.node):
+                    hit = None
+                    if throwing(f, n):
+                        hit = (n, None)
+                    elif n['k'] == 'call' and 'fd' in n:
+                        g = u.by_id.get(n['fd'])
+                        if g is not None and g.body is not None and g is not f and g.rel().startswith('amgcl/'):
+                            for m in walk(g.body):
+                                if throwing(g, m) and not any(a['k'] == 'try' for a in g.ancestors(m)):
+                                    hit = (n, (g, m))
+                                    break
+                    if hit is None:
+                        continue
+                    if any(a['k'] == 'try' and a['i'] > r.node['i'] for a in f.ancestors(n)):
+                        continue
+                    bad = hit
+                    break
+                det = ''
+                if bad is not None:
+                    n, via = bad
+                    det = ('%s at %s is executed inside the OpenMP region that starts at %s%s: an exception cannot leave a parallel region - the program is terminated instead of '
+                           'reporting the error' % (show(n)[:60], f.where(n), f.where(r.node), (' (it throws at %s)' % via[0].where(via[1])) if via else ''))
+                ck.ob('G.no-throw-in-parallel-region', '%s|%s|region#%d' % (f.rel(), '::'.join(f.q.split('::')[-2:]), k), f.where(r.node), not det, det)
+
+
 def main(tier):
     ck = Check('C10', tier, 'C10 (clauses): raw-allocated arrays are completely filled; arrays are freed only by their owner; empty_level never escapes the hierarchy construction.')
     T = os.path.join(ir.VERIF, 'tus')
@@ -747,6 +801,7 @@ def main(tier):
     rule_D(ck, units)
     rule_E(ck, units, floor=3 if tier == 'quick' else 3)
     rule_F(ck, units)
+    rule_G(ck, units)
     # outputs are a function of the inputs only: the multigrid cycle does not read what an earlier application left in
     # its per-level scratch vectors (rules shared with C02)
     import c02
